@@ -386,7 +386,7 @@ def wire_ids(msg):
     return [m['id'] for m in (p if isinstance(p, list) else [p]) if isinstance(m, dict) and 'id' in m]
 
 
-def run_impl_case(jr, case, step=1):
+def run_impl_case(jr, case, step=1, fail_draws=(True, True)):
     """Runs the case against a fresh connection (inside a running loop).  Returns
     (obs tokens, final token list, trace, resolver) - trace[i] = dict(op = the op with the ids
     really used on the wire, causes/forms per response member, exc, states, pending, ids (decoded
@@ -456,7 +456,8 @@ def run_impl_case(jr, case, step=1):
             rec['exc'] = type(e).__name__
             o = '!' + type(e).__name__
         if k in 'SB':
-            rec['noms'] = rs.drew(nreq, rec['ids'])
+            used = nreq if rec['exc'] is None or fail_draws[0 if k == 'S' else 1] else 0
+            rec['noms'] = rs.drew(used, rec['ids'])
         after = [fut_state(jr, f) for f in futs]
         changed = [t for t, (a, b) in enumerate(zip(before, after)) if a != b]
         if o is None:
@@ -652,17 +653,27 @@ def unlisted_failure(ctx, res):
 # ------------------------------------------------------------------ workers
 _jr = None
 _step = 1
+_fail_draws = (True, True)
 
 
-def _init(repo, step=1):
-    global _jr, _step
+def id_params(facts):
+    """what the facts say about the id counter: (step, does a failed send_request /
+    send_batch use up the ids it drew) - parameters of the model, not laws"""
+    facts = facts or {}
+    return (facts.get('id_step', 1) or 1,
+            (bool(facts.get('fail_draws_single', True)), bool(facts.get('fail_draws_batch', True))))
+
+
+def _init(repo, step=1, fail_draws=(True, True)):
+    global _jr, _step, _fail_draws
     _jr = fresh_import(repo, 'aiorpcx.jsonrpc')
     _step = step or 1
+    _fail_draws = tuple(fail_draws)
 
 
 def _run_one(c):
     """(observation string, oracle verdict, model input line | None, why there is no line)"""
-    obs, final, trace, rs = run_impl_case(_jr, c, _step)
+    obs, final, trace, rs = run_impl_case(_jr, c, _step, _fail_draws)
     got = ' '.join(obs + final)
     verdict = oracle(c, trace)
     try:
@@ -683,14 +694,14 @@ def _run_batch(cases):
 
 def run_impl(ctx, cases):
     n = len(cases)
-    step = (ctx.facts or {}).get('id_step', 1) or 1
+    step, fail_draws = id_params(ctx.facts)
     if n < 6000:
-        _init(ctx.repo, step)
+        _init(ctx.repo, step, fail_draws)
         return _run_batch(cases)
     nproc = min(12, os.cpu_count() or 1)
     size = max(2000, n // (nproc * 4))
     jobs = [cases[i:i + size] for i in range(0, n, size)]
-    with Pool(nproc, initializer=_init, initargs=(ctx.repo, step)) as pool:
+    with Pool(nproc, initializer=_init, initargs=(ctx.repo, step, fail_draws)) as pool:
         parts = pool.map(_run_batch, jobs)
     return [r for p in parts for r in p]
 
@@ -1031,7 +1042,7 @@ def reuse_cases():
                             yield {'proto': proto, 'ops': ops + tail}
 
 
-def boundary_cases(warmups=(8, 98), sizes=(3,)):
+def boundary_cases(warmups=(8, 98), sizes=(3,), extras=('', 'single', 'batch')):
     """ids across the digit boundaries 9/10 and 99/100: `w` singles are sent and answered, then
     a batch of >= 3 requests whose ids straddle the boundary (8,9,10 / 98,99,100) - alone, next
     to an outstanding single, and next to a second batch - is answered in every member order.
@@ -1047,7 +1058,7 @@ def boundary_cases(warmups=(8, 98), sizes=(3,)):
                 for size in sizes:
                     ids = tuple(range(w, w + size))
                     for order in itertools.permutations(range(size)):
-                        for extra in ('', 'single', 'batch'):
+                        for extra in extras:
                             if extra and order[0] == 0:
                                 continue
                             ops = list(warm) + [['B', 'r' * size, 1]]
@@ -1110,8 +1121,8 @@ def run(ctx):
     if depth() >= 1:
         ex = list(exhaustive_cases(2, ['S', 'B:rr', 'B:rnr', 'B:r', 'B:nn'], (2,)))
         evaluate(ctx, ex, res, 'exhaustive_2_sends_more_kinds')
-        evaluate(ctx, list(boundary_cases((7, 9, 97, 99), (3, 4))), res,
-                 'ids_across_digit_boundaries_more')
+        evaluate(ctx, list(boundary_cases((7, 9), (3, 4))) + list(boundary_cases((97, 99), (4,), ('',))),
+                 res, 'ids_across_digit_boundaries_more')
     if depth() >= 2:
         ex = list(exhaustive_cases(3, ['S', 'B:rr', 'B:nrr'], (0, 1), thin=3))
         evaluate(ctx, ex, res, 'exhaustive_3_sends_every_3rd')
